@@ -211,7 +211,7 @@ where
     job.stats = stats();
     // native differential run against the reference prover / unbatched verifier on this curve
     // (adversarial reference provers included; concrete, reported as structural checks)
-    if torsion.is_some() || curve == "secq256k1" {
+    {
         for (name, ok) in crate::replay::diff_native::<C>(shape, seed, torsion.clone()) {
             job.check(&format!("reference differential: {}", name), ok, String::new());
         }
